@@ -425,8 +425,8 @@ func runC20(c *eng.Ctx, tier string) {
 			return res
 		}
 		isParsed := func(v ssa.Value) bool {
-			call, idx := eng.TupleCall(v)
-			return call != nil && call == names && idx == 1
+			call, part := namesPartOf(v)
+			return call != nil && call == names && part == "fields"
 		}
 		applied = applyLoop(ns, isParsed)
 		if !applied {
@@ -720,10 +720,38 @@ func c20Types(c *eng.Ctx, parse, apply *ssa.Function) {
 	for name, ifi := range cases {
 		body := ifi.Block().Succs[0]
 		var vo *ssa.Call
-		for _, in := range body.Instrs {
-			if call, ok := in.(*ssa.Call); ok && eng.CalleeIs(&call.Call, "reflect", "ValueOf") {
-				vo = call
+		caseFn := ifi.Parent()
+		for _, b := range caseFn.Blocks {
+			if b != body && !(len(body.Preds) == 1 && body.Dominates(b)) {
+				continue
 			}
+			for _, in := range b.Instrs {
+				if call, ok := in.(*ssa.Call); ok && eng.CalleeIs(&call.Call, "reflect", "ValueOf") && vo == nil {
+					vo = call
+				}
+			}
+		}
+		// whatever the field held before, it is assigned: no way from the
+		// case to a successful return around the reflective Set
+		if len(body.Preds) == 1 {
+			ei := errResultIndex(caseFn)
+			hit, path := eng.SearchBlock(caseFn, body, nil, func(x ssa.Instruction) bool {
+				call, ok := x.(*ssa.Call)
+				if !ok {
+					return false
+				}
+				cal := call.Call.StaticCallee()
+				return cal != nil && cal.Pkg != nil && cal.Pkg.Pkg.Path() == "reflect" && strings.HasPrefix(cal.Name(), "Set")
+			}, func(x ssa.Instruction) bool {
+				r, isR := x.(*ssa.Return)
+				return isR && (ei < 0 || nonNilAt(eng.RetVals(r)[ei], eng.FactsAt(r)) != eng.Yes)
+			})
+			c.Check(hit == nil, "R-C20-6", apply, ifi.Pos(), "case "+name+" [assigned]", "a field of this type is assigned on every path on which apply reports success (whatever it held before)", func() string {
+				if hit == nil {
+					return ""
+				}
+				return "success is reported without the reflective Set: " + p.PathStr(path)
+			}())
 		}
 		if vo == nil {
 			if name != "bytesType" { // the []byte case is judged by R-C20-1 wherever its ValueOf is
@@ -884,6 +912,35 @@ func c20EveryTaggedField(c *eng.Ctx, parse *ssa.Function) {
 			}
 		}
 	})
+	if loop == nil {
+		// walking the struct's direct fields only: fields promoted from an
+		// embedded struct are never seen (unless the walk descends into
+		// anonymous fields itself)
+		var numField *ssa.Call
+		descends := false
+		eng.InstrsDeep(parse, func(_ *ssa.Function, in ssa.Instruction) {
+			if call, ok := in.(*ssa.Call); ok && call.Call.IsInvoke() && call.Call.Method.Name() == "NumField" && eng.IsNamed(call.Call.Value.Type(), "reflect", "Type") {
+				numField = call
+			}
+			if call, ok := in.(*ssa.Call); ok && eng.CalleeIs(&call.Call, "reflect", "Value.NumField") {
+				numField = call
+			}
+			if fa, ok := in.(*ssa.FieldAddr); ok {
+				if fr, isF := eng.FieldOfAddr(fa); isF && fr.Is("reflect", "StructField", "Anonymous") {
+					descends = true
+				}
+			}
+			if fa, ok := in.(*ssa.Field); ok {
+				if st, isSt := fa.X.Type().Underlying().(*types.Struct); isSt && eng.IsNamed(fa.X.Type(), "reflect", "StructField") && st.Field(fa.Field).Name() == "Anonymous" {
+					descends = true
+				}
+			}
+		})
+		if numField != nil && !descends {
+			c.Bad("R-C20-9", parse, numField.Pos(), "fields examined by parseFields", "every visible field has its setec tag looked up (fields promoted from embedded structs included)", "only the struct's direct fields are walked ("+eng.CallStr(&numField.Call)+") and anonymous fields are not descended into")
+			return
+		}
+	}
 	if loop == nil || tag == nil || !loop.InLoop(tag.Block()) {
 		c.Undecided("R-C20-9", parse, parse.Pos(), "loop over reflect.VisibleFields with a Tag.Lookup(\"setec\")", "not found in this form")
 		return
